@@ -48,7 +48,7 @@ pub (super) struct JobQueueCore {
     pub (super) state: QueueState,
 
     /// If something is blocked on this queue, a condition variable to wake it up
-    pub (super) wake_blocked: Vec<Weak<Condvar>>,
+    pub (super) wake_blocked: Vec<(Weak<Condvar>, Arc<Mutex<bool>>)>,
 }
 
 impl fmt::Debug for JobQueue {
